@@ -581,16 +581,29 @@ func rootOf(e ast.Expr) ast.Expr {
 	}
 }
 
+// markRoot marks the variable that an assignment target WRITES. The race detector works at the
+// granularity of whole variables (their base address), so only these count as writes of v:
+// v = ..., v++, v op= ..., pkg.V = ..., and m[k] = ... / delete(m, k) for a map m (a map write
+// conflicts with every other access to the map). v[i] = ... on a slice or array, v.f = ... and
+// *v = ... write an element, a field or the pointee, not the variable: they count as reads of v
+// (the header / pointer is read). Treating them as writes of v flagged correct code that
+// protects elements individually (sharded counters, per-slot locks).
 func (in *inst) markRoot(e ast.Expr) {
-	r := rootOf(e)
-	switch x := r.(type) {
+	switch x := unparen(e).(type) {
 	case *ast.Ident:
 		in.writeRoots[x] = true
 	case *ast.SelectorExpr:
-		// either pkg.V or local.field...: mark both the selector and the inner ident
-		in.writeRoots[x] = true
 		if id, ok := x.X.(*ast.Ident); ok {
-			in.writeRoots[id] = true
+			if _, isPkg := in.info.Uses[id].(*types.PkgName); isPkg {
+				in.writeRoots[x] = true
+				in.writeRoots[id] = true
+			}
+		}
+	case *ast.IndexExpr:
+		if t := in.info.TypeOf(x.X); t != nil {
+			if _, isMap := t.Underlying().(*types.Map); isMap {
+				in.markRoot(x.X)
+			}
 		}
 	}
 }
@@ -633,6 +646,17 @@ func (in *inst) wrapShared(orig ast.Node, e ast.Expr, write bool) ast.Expr {
 	kind, fn := "r", "R"
 	if write {
 		kind, fn = "w", "W"
+	}
+	// a use of an array- or struct-typed variable touches one element or field of it; which one
+	// is not known at this granularity: scheduling point only, nothing recorded (unless the
+	// whole variable is assigned)
+	if !write {
+		if t := in.info.TypeOf(e); t != nil {
+			switch t.Underlying().(type) {
+			case *types.Array, *types.Struct:
+				kind, fn = "r", "RN"
+			}
+		}
 	}
 	return &ast.ParenExpr{X: &ast.StarExpr{X: call(rt(fn), in.site(kind, orig), &ast.UnaryExpr{Op: token.AND, X: e})}}
 }
@@ -1281,6 +1305,12 @@ func (in *inst) callExpr(ce *ast.CallExpr, parent ast.Node) ast.Expr {
 	if lib && !in.concFile && !in.recvShared[se] {
 		return nil
 	}
+	if lib && hasSyncField(named) {
+		// a library type that carries its own mutex / atomics synchronises inside its methods;
+		// recording "this method writes its receiver" at the call site (outside that lock) would
+		// flag every pair of callers
+		return nil
+	}
 	if in.recvLocal[se] {
 		return nil
 	}
@@ -1303,6 +1333,28 @@ func (in *inst) callExpr(ce *ast.CallExpr, parent ast.Node) ast.Expr {
 	in.rep.Sites[len(in.rep.Sites)-1].Type = fn.Pkg().Name() + "." + tn + "." + fn.Name()
 	se.X = call(rt("P"), id, ptr, ast.NewIdent(w))
 	return nil
+}
+
+// hasSyncField reports whether a named struct type has a field of a type from package sync or
+// sync/atomic (directly or as a pointer).
+func hasSyncField(named *types.Named) bool {
+	st, ok := named.Underlying().(*types.Struct)
+	if !ok {
+		return false
+	}
+	for i := 0; i < st.NumFields(); i++ {
+		t := st.Field(i).Type()
+		if p, ok := t.(*types.Pointer); ok {
+			t = p.Elem()
+		}
+		if n, ok := t.(*types.Named); ok && n.Obj().Pkg() != nil {
+			switch n.Obj().Pkg().Path() {
+			case "sync", "sync/atomic":
+				return true
+			}
+		}
+	}
+	return false
 }
 
 // rootIsShared reports whether the innermost identifier of e is a package-level variable.
